@@ -410,8 +410,14 @@ func (bc *boundsCtx) defFacts(f *factSet, roots []ssa.Value) {
 				} else if !strings.HasSuffix(n, "Byte") {
 					sub = 0
 				}
-				f.le(i, 0, sl, so, -sub) // i + |sub| <= len(s)
 				lenNonNeg(x.Call.Args[0])
+				if sub >= 1 {
+					f.le(i, 0, sl, so, -1) // i <= len(s)-1 (also when not found: -1 <= len-1)
+				}
+				// found (i >= 0, established by a dominating test)  =>  i + |sub| <= len(s)
+				if boundOf(f, "", i) <= 0 {
+					f.le(i, 0, sl, so, -sub)
+				}
 			}
 			for _, a := range x.Call.Args {
 				visit(a, depth+1)
